@@ -108,7 +108,10 @@ def schema_for(version: str, *, via_context: bool = False) -> MessageSchema:
     """A decoder for one protocol version, configured through set_protocol() or - the plain marshmallow way the field
     classes read it - through the schema context."""
     if via_context:
-        return MessageSchema(context={"protocol": get_protocol(version)})
+        try:
+            return MessageSchema(context={"protocol": get_protocol(version)})
+        except TypeError:
+            pass  # a codec that is not a marshmallow schema has no such way of being configured: use the documented one
     schema = MessageSchema()
     schema.set_protocol(get_protocol(version))
     return schema
